@@ -157,6 +157,66 @@ theorem not_sub13 : ¬ Sub [] rNat rNull := by
     | (simp [isName] at h2; done)
     | (obtain ⟨x, d, hx1, hx2, _⟩ := h2; simp [recFindFull, recFind, Env.find] at hx2; done)
     | skip
+
+/-- the same obstruction under any label -/
+theorem not_sub_nat_null (l : Label) :
+    ¬ Sub [] (.record (.cons l (.prim .nat) .nil)) (.record (.cons l (.prim .null) .nil)) := by
+  intro ⟨R, hR, h⟩
+  have h1 := hR _ _ h
+  unfold F at h1
+  rcases h1 with h1 | h1 | h1 | h1 | h1 | h1 | h1 | h1 | h1 | h1 | h1 | h1 | h1 | h1 | h1
+  all_goals first
+    | (simp at h1; done)
+    | skip
+  obtain ⟨fs1, fs2, e1, e2, hall⟩ := h1
+  simp only [Ty.record.injEq] at e1 e2
+  subst e1 e2
+  have := hall (l, .prim .null) (by simp [Fields.toList])
+  simp only [lookupF] at this
+  simp only [if_true] at this
+  have h2 := hR _ _ this
+  unfold F at h2
+  rcases h2 with h2 | h2 | h2 | h2 | h2 | h2 | h2 | h2 | h2 | h2 | h2 | h2 | h2 | h2 | h2
+  all_goals first
+    | (simp [isName] at h2; done)
+    | (obtain ⟨x, d, hx1, hx2, _⟩ := h2; simp [recFindFull, recFind, Env.find] at hx2; done)
+    | skip
+
+def fNull : Ty := .func (.cons (.prim .null) .nil) .nil []
+def fNone : Ty := .func .nil .nil []
+def fNat : Ty := .func (.cons (.prim .nat) .nil) .nil []
+
+theorem fsub12 : Sub [] fNull fNone := by
+  refine ⟨fun a b => (a = fNull ∧ b = fNone) ∨ (a = tupleTy .nil ∧ b = tupleTy (.cons (.prim .null) .nil)) ∨
+    (a = tupleTy .nil ∧ b = tupleTy .nil), ?_, Or.inl ⟨rfl, rfl⟩⟩
+  intro a b h
+  rcases h with ⟨ha, hb⟩ | ⟨ha, hb⟩ | ⟨ha, hb⟩
+  · subst ha hb; exact F.func _ _ _ _ _ (Or.inr (Or.inl ⟨rfl, rfl⟩)) (Or.inr (Or.inr ⟨rfl, rfl⟩))
+  · subst ha hb
+    refine F.record _ _ ?_
+    intro p hp
+    simp only [tupleFields, Fields.toList, List.mem_singleton] at hp
+    subst hp
+    simp only [tupleFields, lookupF]
+    decide
+  · subst ha hb; exact F.refl _
+
+theorem fsub23 : Sub [] fNone fNat := by
+  refine ⟨fun a b => (a = fNone ∧ b = fNat) ∨ (a = tupleTy (.cons (.prim .nat) .nil) ∧ b = tupleTy .nil) ∨
+    (a = tupleTy .nil ∧ b = tupleTy .nil), ?_, Or.inl ⟨rfl, rfl⟩⟩
+  intro a b h
+  rcases h with ⟨ha, hb⟩ | ⟨ha, hb⟩ | ⟨ha, hb⟩
+  · subst ha hb; exact F.func _ _ _ _ _ (Or.inr (Or.inl ⟨rfl, rfl⟩)) (Or.inr (Or.inr ⟨rfl, rfl⟩))
+  · subst ha hb
+    refine F.record _ _ ?_
+    intro p hp
+    simp [tupleFields, Fields.toList] at hp
+  · subst ha hb; exact F.refl _
+
+theorem not_fsub13 : ¬ Sub [] fNull fNat := by
+  intro h
+  have := (Wire.sub_func_inv' h).2.1
+  exact not_sub_nat_null (.id 0) this
 end Trans
 
 /-- **The subtype relation of the specification is not transitive**: `record { x : nat } <: record {}` (a field may be
@@ -168,6 +228,12 @@ fine (any type is a subtype of those); the witness is replayed on the implementa
 theorem subtyping_is_not_transitive_at_a_null_field :
     Sub [] Trans.rNat Trans.rEmpty ∧ Sub [] Trans.rEmpty Trans.rNull ∧ ¬ Sub [] Trans.rNat Trans.rNull :=
   ⟨Trans.sub12, Trans.sub23, Trans.not_sub13⟩
+
+/-- the same failure through an argument of type `null` in the *sub*type (argument lists are compared as tuple records,
+the other way round): `func (null) -> () <: func () -> () <: func (nat) -> ()`, but not the ends -/
+theorem subtyping_is_not_transitive_at_a_null_argument :
+    Sub [] Trans.fNull Trans.fNone ∧ Sub [] Trans.fNone Trans.fNat ∧ ¬ Sub [] Trans.fNull Trans.fNat :=
+  ⟨Trans.fsub12, Trans.fsub23, Trans.not_fsub13⟩
 
 /-- **… and that is the only obstruction on first-order types**: over an environment whose definitions resolve and
 have distinct field ids (`GoodEnv`), for types without function or service references within reach (`FOT`),
